@@ -174,8 +174,9 @@ def m_recs(recs):
     return ";".join(m_rec(r) for r in recs) if recs else "."
 
 
-def vbits(v):
-    return "".join("1" if v[k] else "0" for k in ("lazy", "flush", "port"))
+def vbits(v, ascii_stream=False):
+    """lazyAware flushOnClose portDefault asciiStream (the last one: the log file cannot encode non-ASCII text)"""
+    return "".join("1" if v[k] else "0" for k in ("lazy", "flush", "port")) + ("1" if ascii_stream else "0")
 
 
 def err_offsets(field):
@@ -237,7 +238,7 @@ def run_handler(case, work, stderr_mode=False):
         f.write(old)
     base = ScrapliFileHandler if case["buffered"] else logging.FileHandler
     cls = base if stderr_mode else _probe(base)
-    h = cls(path, mode="a" if append else "w")
+    h = cls(path, mode="a" if append else "w", encoding="utf-8")   # the locale's default is the subject of run_locale only
     h._c20_errors = []
     h._c20_start = len(old.encode()) if append else 0
     h.setFormatter(ScrapliFormatter(log_header=case.get("header", True), caller_info=case["caller"]))
@@ -292,6 +293,86 @@ def run_formatter(case):
     return out
 
 
+# ---------------------------------------------------------------- log file encoding: a child process in the C locale
+LOCALE_ENV = {"LC_ALL": "C", "LANG": "C", "PYTHONCOERCECLOCALE": "0", "PYTHONUTF8": "0"}
+
+
+def _locale_child():
+    """runs in the child: enable_basic_logging (the code that chooses the file's encoding) + the records of each case"""
+    import locale
+    from scrapli.logging import enable_basic_logging
+    cases = json.load(sys.stdin)
+    out = {"encoding": locale.getpreferredencoding(False), "results": []}
+    work = Work()
+    lg = logging.getLogger("scrapli")
+    try:
+        for case in cases:
+            path = work.path("loc")
+            old = case.get("old", "")
+            with open(path, "w", encoding="utf-8") as f:
+                f.write(old)
+            before = list(lg.handlers)
+            enable_basic_logging(file=path, level="debug", caller_info=case["caller"], buffer_log=case["buffered"],
+                                 mode="append" if case.get("append") else "write")
+            h = [x for x in lg.handlers if x not in before][0]
+            errors, start = [], (len(old.encode()) if case.get("append") else 0)
+
+            def on_error(record, h=h, errors=errors, start=start):
+                et = sys.exc_info()[0]
+                h.stream.flush()
+                errors.append(f"{et.__name__ if et else 'None'}@{os.path.getsize(h.baseFilename) - start}")
+            h.handleError = on_error
+            raised = None
+            try:
+                for r in case["recs"]:
+                    rec = mk_record(r)
+                    r["asctime"] = _STD.formatTime(rec)
+                    h.handle(rec)
+            except Exception as e:
+                raised = f"{type(e).__name__}: {e}"
+            h.close()
+            lg.removeHandler(h)
+            out["results"].append({"file": open(path, "rb").read().hex(), "errors": errors, "raised": raised, "recs": case["recs"],
+                                   "stream_encoding": getattr(h, "encoding", None)})
+    finally:
+        work.cleanup()
+    sys.stdout.write(json.dumps(out))
+
+
+def run_locale(cases):
+    """the cases through enable_basic_logging in a child process whose locale encoding is not UTF-8"""
+    import subprocess
+    tools = str(Path(__file__).resolve().parents[1])
+    code = (f"import sys; sys.path.insert(0, {tools!r}); from vlib import common; common.use_repo(); "
+            "import props.c20 as m; m._locale_child()")
+    env = {**os.environ, **LOCALE_ENV}
+    p = subprocess.run([sys.executable, "-c", code], input=json.dumps(cases), capture_output=True, text=True, env=env, timeout=300)
+    if p.returncode != 0:
+        raise RuntimeError(f"locale child failed rc={p.returncode}: {p.stderr[-1500:]}")
+    return json.loads(p.stdout)
+
+
+def locale_cases():
+    e = {"host": "sim", "port": "22", "uid": None}
+    mk = lambda recs, buffered, **kw: {"kind": "handler", "via": "locale-C", "buffered": buffered, "caller": kw.get("caller", False),
+                                       "append": kw.get("append", False), "old": kw.get("old", ""), "recs": recs}
+    cafe = "description caf\u00e9 \u2713\n"
+    return [mk([rec("ascii only", (), "INFO", **e), rec("write: %r", ("show version\n",), **e), rec("read: %r", (b"caf\xc3\xa9",), **e)], True),
+            mk([rec("start", (), "INFO", **e), rec("write: %r", (cafe,), **e), rec("read: %r", (b"ok",), **e), rec("done", (), "INFO", **e)], True),
+            mk([rec("write: %r", (cafe,), **e), rec("second", (), "INFO", **e)], False),                      # header row lost with it
+            mk([rec("read: %s", ("caf\u00e9",), **e), rec("read: %r", (b"x",), **e), rec("after", (), "INFO", **e)], True, caller=True),
+            mk([rec("plain", (), "INFO", host="caf\u00e9", port="22")], False, append=True, old="old\n"),
+            mk([rec("a", (), "INFO", **e), rec("b \u2713", (), "INFO", **e), rec("c", (), "INFO", **e)], True)]
+
+
+def needs_non_ascii(case):
+    """predicate of C20-ENC: the case ran under a non-UTF-8 locale and a line of its rendering has a non-ASCII character"""
+    try:
+        return case.get("via") == "locale-C" and not o_file(case["recs"], case["buffered"], case["caller"]).isascii()
+    except Exception:
+        return False
+
+
 # ---------------------------------------------------------------- findings
 def is_read(r):
     return r["msg"].startswith(READ)
@@ -301,6 +382,8 @@ def predicates(case):
     """ids of the findings whose narrow predicate the case satisfies"""
     recs = case.get("recs") or []
     ids = []
+    if needs_non_ascii(case):
+        ids.append("C20-ENC")
     if any(r.get("host") is not None and r.get("port") is None for r in recs):
         ids.append("F4")
     if case.get("buffered") and any(is_read(r) and r["args"] for r in recs):
@@ -738,10 +821,19 @@ def run(tier, seed):
                   "correspondence harness props/c20.py (LogRecords built by hand or captured from the real loggers; Handler.handleError "
                   "overridden to record logging's error reports; SimTransport)",
                   "CPython: logging's dispatch, %-operator (model: arity + %r/%s/%% only), repr() of argument objects (bytes repr is "
-                  "modelled and compared), str.format field layout, file open modes, UTF-8 codec"]
+                  "modelled and compared against CPython's), str.format field layout, file open modes, UTF-8 codec"]
     ck.assumptions = ["records carry no exc_info/stack_info; record.msg is a str (true of every scrapli call site)",
-                      "a BytesIO sink is positioned at its end and used for one open/close cycle (close() closes it — pinned by tests)",
-                      "malformed records (arity mismatch, %d-style directives) are outside the property: advisory model/code agreement only",
+                      "the log file's encoding can encode every character (UTF-8): handler_refines_spec is stated for asciiStream = false. "
+                      "enable_basic_logging guarantees it since 35bb84d (encoding='utf-8'); before, under a non-UTF-8 locale, non-ASCII messages and "
+                      "the header row were lost (finding C20-ENC, fixed; handler_ascii_stream_refuted). The witness is replayed through "
+                      "enable_basic_logging in a child process with LC_ALL=C PYTHONUTF8=0 every run; in-process handler cases open the file "
+                      "with encoding='utf-8' explicitly",
+                      "a BytesIO sink is positioned at its end (the channel never closes it: any number of open/close cycles is covered)",
+                      "all read records of a coalesced run are shown under the FIRST record's target/level/time: attribution is proved only "
+                      "when the read records share one target (coalesce_attribution; refuted for interleaved connections)",
+                      "reads happen only between open() and close() of the channel (a read after close() on a path sink raises ValueError)",
+                      "ill-formed records (msg % args raises): inside the model's %-fragment the model/code agreement is checked strictly, "
+                      "directives CPython knows and the model does not (%d, %5r, %(a)s) are advisory",
                       "asctime is whatever logging.Formatter.formatTime returns for the record (taken from the stdlib, not modelled)"]
     try:
         translate.translate(PID)
@@ -764,6 +856,25 @@ def _run(ck, tier, work):
     variant = measure_variant(work, witnesses)
     ck.extra["variant_measured"] = variant
     live = {fid for key, fid in (("lazy", "F2"), ("flush", "F3"), ("port", "F4")) if not variant[key]}
+    # log file encoding: the stored witness + a few more cases through enable_basic_logging in a C-locale child process
+    enc_witness = json.loads(json.dumps(witnesses["C20-ENC"]))
+    loc_cases = [enc_witness] + locale_cases()
+    try:
+        loc = run_locale(loc_cases)
+    except Exception as e:
+        loc = None
+        ck.notes.append(f"locale child process could not run: {e!r}"[:300])
+        ck.extra["locale_child"] = "failed to run (advisory)"
+    ascii_stream = False
+    if loc is not None:
+        ck.extra["locale_child_encoding"] = loc["encoding"]
+        r0 = loc["results"][0]
+        c0 = {**enc_witness, "recs": r0["recs"]}
+        probs0, _ = judge_handler(c0, {"file": bytes.fromhex(r0["file"]), "errors": r0["errors"], "raised": r0["raised"]})
+        ascii_stream = bool(probs0)
+        variant["utf8_log_file"] = not ascii_stream
+        if ascii_stream:
+            live.add("C20-ENC")
     for f in ck.findings:
         if f.get("status") == "open" and f["id"] in live:
             ck.known_finding(f["id"], f["what"])
@@ -810,7 +921,15 @@ def _run(ck, tier, work):
     for c in hcases + mal:
         res = run_handler(c, work)
         plan.append((c["kind"], c, res, len(lines)))
-        lines.append(f"handler {vb} {int(c['buffered'])} {int(c['caller'])} {int(c.get('header', True))} {m_recs(c['recs'])}")
+        lines.append(f"handler {vb} {int(c['buffered'])} {int(c['caller'])} {int(c.get('header', True))} {int(bool(c.get('append')))} "
+                     f"{es(c.get('old', ''))} {m_recs(c['recs'])}")
+    if loc is not None:
+        for c, r in zip(loc_cases, loc["results"]):
+            cc = {**c, "via": "locale-C", "recs": r["recs"]}
+            res = {"file": bytes.fromhex(r["file"]), "errors": r["errors"], "raised": r["raised"]}
+            plan.append(("handler", cc, res, len(lines)))
+            lines.append(f"handler {vbits(variant, ascii_stream)} {int(cc['buffered'])} {int(cc['caller'])} 1 {int(bool(cc.get('append')))} "
+                         f"{es(cc.get('old', ''))} {m_recs(cc['recs'])}")
     # a share of the cases once more with logging's own stderr report instead of the handleError override
     stderr_checked = 0
     for c in hcases[: (300 if tier == "quick" else 3000)]:
@@ -844,8 +963,9 @@ def _run(ck, tier, work):
     for c in e2e:
         res = run_e2e(c, work)
         plan.append(("e2e", c, res, len(lines)))
-        lines.append(f"handler {vb} {int(c['buffered'])} {int(c['caller'])} 1 {m_recs(res['recs'])}")
-    # small functions: bytes repr, %-operator, mode table, extras
+        lines.append(f"handler {vb} {int(c['buffered'])} {int(c['caller'])} 1 {int(c['mode'].lower() == 'append')} {es(c.get('old', ''))} "
+                     f"{m_recs(res['recs'])}")
+    # small functions: bytes repr, mode table, the %-operator (template x arity table), extras
     small = []
     for b in PAYLOADS + [bytes([i]) for i in range(256)] + [bytes(ck.rng.randrange(256) for _ in range(ck.rng.randint(0, 20))) for _ in range(200)]:
         small.append((f"repr {hexs(b)}", es(repr(b))))
@@ -862,6 +982,18 @@ def _run(ck, tier, work):
         finally:
             lg.setLevel(sv[0]); lg.propagate = sv[1]
         small.append((f"mode {es(m)}", exp))
+    # the %-operator: templates x arities against CPython's own
+    tmpls = ["", "plain", "%r", "%s", "a %r b %s c", "%%", "100%% %s", "%s%s", "%r %r %r", "%", "x %", "%%%", "%%%%", "%r%", "%s %% %r", "read: %r"]
+    argsets = [(), (b"a",), ("s",), (b"it's", "q\"q"), (1, None, 2.5), (b"\xff", "caf\u00e9", True, "x")]
+    for t in tmpls:
+        for a in argsets:
+            if not a:
+                continue      # no args: logging does not apply the operator at all
+            try:
+                exp = "ok " + es(t % a)
+            except Exception:
+                exp = "err"
+            small.append((f"pyfmt {es(t)} {m_args([encode_arg(x) for x in a])}", exp))
     from scrapli.logging import get_instance_logger
     for h, p, u in itertools.product(["", "h", "10.0.0.1"], [0, 22, 65535], ["", "u"]):
         exx = get_instance_logger("scrapli.c20probe", host=h, port=p, uid=u).extra
@@ -876,7 +1008,7 @@ def _run(ck, tier, work):
         mout = None
 
     # ---------------- judge
-    adv_dis = adv_foreign = legacy_dis = 0
+    adv_foreign = legacy_dis = 0
     for kind, c, res, li in plan:
         if kind in ("handler", "malformed", "malformed-foreign"):
             indom = kind == "handler" and all(o_wf(r) for r in c["recs"])
@@ -889,19 +1021,18 @@ def _run(ck, tier, work):
                     ck.violation({**c, "got_file": res["file"].decode("utf-8", "replace"), "want_file": want, "errors": res["errors"]},
                                  "; ".join(probs), matcher)
             if mout is not None:
-                got = f"{hexs(res['file'][len(c.get('old', '').encode()) if c.get('append') else 0:])} {','.join(res['errors']) if res['errors'] else '.'}"
+                got = f"{hexs(res['file'])} {','.join(res['errors']) if res['errors'] else '.'}"      # the WHOLE file (old content included)
                 if res["raised"]:
                     got += " RAISED"
                 if err_offsets(got) != err_offsets(mout[li]):
-                    if indom and matcher(c) is None:
+                    if kind == "malformed-foreign":
+                        adv_foreign += 1    # directives CPython knows and the model does not
+                    elif matcher(c) is not None and any(f["id"] == matcher(c) and f.get("status") == "open" for f in ck.findings) \
+                            and c.get("via") != "locale-C":
+                        legacy_dis += 1     # behaviour of an OPEN defect beyond the modelled %-directives
+                    else:                   # in-domain AND ill-formed records inside the model's %-fragment: strict
                         ck.disagree("Log model (handler+formatter) vs real classes", c, f"impl={got[-600:]} model={mout[li][-600:]}")
-                    elif indom:
-                        legacy_dis += 1     # behaviour of a known defect beyond the modelled %-directives
-                    elif kind == "malformed-foreign":
-                        adv_foreign += 1
-                    else:
-                        adv_dis += 1
-                elif indom:
+                else:
                     ck.traces_validated += 1
         elif kind == "formatter":
             i = li
@@ -948,8 +1079,7 @@ def _run(ck, tier, work):
                 slim = {**cc, "recs": res["recs"][:60], "got_file": res["file"].decode("utf-8", "replace")[:4000], "want_file": want[:4000]}
                 ck.violation(slim, "; ".join(probs), lambda _c, cc=cc: matcher(cc))
             if mout is not None:
-                off = len(c.get("old", "").encode()) if cc["append"] else 0
-                got = hexs(res["file"][off:])
+                got = hexs(res["file"])
                 mfile, merrs = mout[li].split(" ")
                 if got != mfile or res["nerr"] != (0 if merrs == "." else merrs.count(",") + 1):
                     if matcher(cc) is None:
@@ -960,12 +1090,12 @@ def _run(ck, tier, work):
                     ck.traces_validated += 1
     if mout is not None:
         for k, (req, exp) in enumerate(small):
-            if mout[small0 + k] != exp:
+            if mout[small0 + k] != exp and not (exp == "err" and mout[small0 + k].startswith("err ")):
                 ck.disagree("Log model small functions (repr / mode / extras) vs CPython and scrapli", {"request": req}, f"impl={exp} model={mout[small0 + k]}")
             else:
                 ck.traces_validated += 1
     ck.extra["advisory_out_of_domain_cases"] = len(mal)
-    ck.extra["advisory_out_of_domain_disagreements"] = adv_dis
+    ck.extra["ill_formed_record_cases_checked_strictly"] = sum(1 for m_ in mal if m_["kind"] == "malformed")
     ck.extra["advisory_out_of_domain_disagreements_foreign_directives"] = adv_foreign
     ck.extra["advisory_disagreements_inside_open_finding_predicates"] = legacy_dis
     ck.exhaustive = True
